@@ -1,5 +1,5 @@
 SPECIFICATION Spec
-CONSTANTS MaxLen = 7 MaxLen2 = 3 Alphabet <- Alpha5 Enzymes = {"KR", "K", "KRnoP"}
+CONSTANTS MaxLen = 7 MaxLen2 = 3 Alphabet <- Alpha5 Enzymes = {"KR", "KRnoP"}
           Reverses = {TRUE, FALSE} Concats = {TRUE} Renderings <- RendOne Width = 2 LemmaMaxLen = 0
           Mut_MoveLast = FALSE Mut_JoinNoNewline = FALSE Mut_NameWithDesc = FALSE
 INVARIANT EmitCase
